@@ -43,7 +43,7 @@ _PV_SPEC = """    ensures
 def _front(ty):
     return [
         # generic `T: Into<Reader>` is outside Verus: the constructor's body (reader.into(), ParserState::new()) is trusted
-        {'op': 'fn', 'path': f'{ty}::new', 'ret': 'r', 'attrs': ['#[verifier::external_body]'],
+        {'op': 'fn', 'path': f'{ty}::new', 'ret': 'r',
          'spec': '    ensures r.fresh(), r.sizes_ok(),'},
         {'op': 'fn', 'path': f'{ty}::parse_value', 'ret': 'r', 'spec': _PV_SPEC},
         {'op': 'fn', 'path': f'{ty}::parse_header_attributes', 'ret': 'r', 'spec': _DRIVE_SPEC,
